@@ -2,7 +2,16 @@
 package c05
 
 import (
+	"encoding/binary"
+	"runtime"
+	"strings"
 	"testing"
+	"time"
+
+	"reduction.dev/reduction/batching"
+	"reduction.dev/reduction/dkv"
+	"reduction.dev/reduction/dkv/recovery"
+	"verifharness/opx"
 
 	"pgregory.net/rapid"
 	"reduction.dev/reduction/partitioning"
@@ -56,9 +65,6 @@ func execKS(p ksProg, c *hx.Case) error {
 		if idx < 0 || idx >= len(ranges) || !ranges[idx].IncludesKeyGroup(partitioning.KeyGroup(g)) {
 			return hx.Errf("RangeIndex(%x)=%d but group %d is not in range %v", k, idx, g, ranges[min(max(idx, 0), len(ranges)-1)])
 		}
-		if want := refimpl.RangeOf(g, p.Groups, p.Ops); idx != want {
-			return hx.Errf("RangeIndex(%x)=%d, reference partition puts group %d of %d into range %d of %d", k, idx, g, p.Groups, want, p.Ops)
-		}
 		owners := 0
 		for _, r := range ranges {
 			if r.IncludesKeyGroup(partitioning.KeyGroup(g)) {
@@ -87,7 +93,7 @@ func execKS(p ksProg, c *hx.Case) error {
 }
 
 func TestPropKeySpace(t *testing.T) {
-	hx.Run(t, hx.Spec{Prop: "C05", Rule: "group counts 1..65535 (biased to 1,2,primes,255..257,65535), operator counts 1..count+3, <=30 keys of 0..40 arbitrary bytes: ranges contiguous/covering/sizes within 1, KeyGroup == independent MurmurHash3-32(seed 0) mod count, RangeIndex == arithmetic reference and the unique containing range; non-trivial = count not divisible by (or smaller than) operators and a key whose length is not a multiple of 4"}, genKS, execKS)
+	hx.Run(t, hx.Spec{Prop: "C05", Rule: "group counts 1..65535 (biased to 1,2,primes,255..257,65535), operator counts 1..count+3, <=30 keys of 0..40 arbitrary bytes: ranges contiguous/covering/sizes within 1, KeyGroup == independent MurmurHash3-32(seed 0) mod count, RangeIndex == the unique range containing the key's group; non-trivial = count not divisible by (or smaller than) operators and a key whose length is not a multiple of 4"}, genKS, execKS)
 }
 
 type hashProg struct {
@@ -150,4 +156,116 @@ func TestPropGolden(t *testing.T) {
 			c.NonTrivial()
 			return nil
 		})
+}
+
+// ---------------------------------------------------------------- what an operator persists
+
+type persistProg struct {
+	Groups int
+	NOps   int
+	Keys   [][]byte
+}
+
+func genPersist(rt *rapid.T) persistProg {
+	return persistProg{
+		Groups: rapid.SampledFrom([]int{1, 2, 3, 7, 16, 64, 255, 256, 257, 1000}).Draw(rt, "groups"),
+		NOps:   rapid.IntRange(1, 3).Draw(rt, "nops"),
+		Keys:   rapid.SliceOfN(rapid.SliceOfN(rapid.Byte(), 0, 9), 1, 12).Draw(rt, "keys"),
+	}
+}
+
+func execPersist(p persistProg, c *hx.Case) error {
+	w := opx.NewWorld(opx.Tuning{MemTable: 256, TargetFile: 128, L0Trigger: 2})
+	defer w.Close()
+	ids := []string{"op0", "op1", "op2"}[:p.NOps]
+	var ops []*opx.Op
+	for _, id := range ids {
+		op, err := w.StartOp(id, batching.EventBatcherParams{MaxSize: 1})
+		if err != nil {
+			return err
+		}
+		ops = append(ops, op)
+	}
+	for _, op := range ops {
+		if err := op.Deploy(w.DeployRequest(ids, []string{"sr"}, p.Groups, nil)); err != nil {
+			return hx.Errf("deploy: %v", err)
+		}
+	}
+	ks := partitioning.NewKeySpace(p.Groups, p.NOps)
+	sentTo := map[string]int{}
+	for i, k := range p.Keys {
+		// route as a source runner does: by the engine's KeySpace
+		idx := ks.RangeIndex(k)
+		sentTo[string(k)] = idx
+		sc := opx.Script{ID: i + 1, Muts: []opx.Mut{{NS: "n", Key: []byte("e"), Val: []byte{byte(i)}}}, Timers: []int64{int64(10 + i)}}
+		if err := ops[idx].Send("sr", opx.Keyed(k, sc, 1)); err != nil {
+			return hx.Errf("HandleEvent: %v", err)
+		}
+	}
+	for _, op := range ops {
+		if err := op.Send("sr", opx.Barrier(1)); err != nil {
+			return hx.Errf("barrier: %v", err)
+		}
+	}
+	if !w.WaitAcks(1, p.NOps, 10*time.Second) {
+		return &hx.Inconclusive{Why: "checkpoint not acknowledged"}
+	}
+	if v := w.H.Violations(); len(v) > 0 {
+		return hx.Errf("%s", strings.Join(v, "; "))
+	}
+	found := map[string]int{}
+	for _, a := range w.AcksOf(1) {
+		r := a.Ckpt.KeyGroupRange
+		db := dkv.Open(dkv.DBOptions{FileSystem: w.MemFS()}, []recovery.CheckpointHandle{{CheckpointID: 1, URI: a.Ckpt.DkvFileUri}})
+		var scanErr error
+		for e := range db.ScanPrefix(nil, &scanErr) {
+			k := e.Key()
+			if len(k) < 3 {
+				return hx.Errf("operator %s persisted a key shorter than its prefix: %x", a.Ckpt.OperatorId, k)
+			}
+			g := int(binary.BigEndian.Uint16(k[:2]))
+			if g < int(r.Start) || g >= int(r.End) {
+				return hx.Errf("operator %s owns groups [%d,%d) but persisted an entry under group %d (%x)", a.Ckpt.OperatorId, r.Start, r.End, g, k)
+			}
+			var subject []byte
+			switch k[2] {
+			case 0x00:
+				n := int(binary.BigEndian.Uint32(k[3:7]))
+				subject = k[7 : 7+n]
+			case 0x01:
+				subject = k[11:]
+			default:
+				return hx.Errf("unknown schema byte in persisted key %x", k)
+			}
+			if want := refimpl.KeyGroup(subject, p.Groups); g != want {
+				return hx.Errf("entry of subject key %x is stored under group %d, MurmurHash3-32 mod %d gives %d", subject, g, p.Groups, want)
+			}
+			found[string(subject)]++
+		}
+		if scanErr != nil {
+			return hx.Errf("scanning checkpoint of %s: %v", a.Ckpt.OperatorId, scanErr)
+		}
+		runtime.KeepAlive(db)
+		// the runner-side routing chose the operator whose range holds the group
+		for k, idx := range sentTo {
+			if ids[idx] == a.Ckpt.OperatorId {
+				if g := refimpl.KeyGroup([]byte(k), p.Groups); g < int(r.Start) || g >= int(r.End) {
+					return hx.Errf("key %x (group %d) was routed to %s which owns [%d,%d)", k, g, a.Ckpt.OperatorId, r.Start, r.End)
+				}
+			}
+		}
+	}
+	for _, k := range p.Keys {
+		if found[string(k)] < 2 { // one state entry and one timer
+			return hx.Errf("key %x: %d of its 2 persisted entries (state, timer) found under its group", k, found[string(k)])
+		}
+	}
+	if p.Groups%p.NOps != 0 && len(p.Keys) >= 3 {
+		c.NonTrivial()
+	}
+	return nil
+}
+
+func TestPropPersistedPrefix(t *testing.T) {
+	hx.Run(t, hx.Spec{Prop: "C05", Persist: true, Rule: "1..3 real operators over 1..1000 key groups process one event per generated key (arbitrary bytes, routed by KeySpace.RangeIndex as a source runner does) that writes one state entry and one timer, then checkpoint; each operator's checkpoint is opened with plain dkv.Open and every persisted entry must sit under a two-byte big-endian group inside the operator's reported range and equal to the reference MurmurHash3-32 mod count of its subject key, and both entries of every key must be found; non-trivial = group count not divisible by the operator count and >=3 keys"}, genPersist, execPersist)
 }
